@@ -1,10 +1,12 @@
 (* C07 — valid_mag and is_maximal decide the MAG definition.  Statements: C07/Spec.v.
    Unbounded: valid_mag_local (valid_mag = one edge per pair /\ acyclic /\ ancestral /\ is_maximal), undirected_rejected,
    has_adc_gap (+ has_adc_bow_missed: the gap is real).
-   Bounded (all ADMGs, bows allowed, on <= 4 nodes; kernel computation in 16 shards): maximal_is_separable_bounded_4,
+   Unbounded since round 4 (all sizes; every D/B graph with acyclic directed layer, bows and non-ancestral graphs included):
+   maximal_is_separable, maximal_is_separable_all, valid_mag_full (Richardson-Spirtes / Verma-Pearl, via open walks).
+   Bounded, kept as independent kernel checks (all ADMGs, bows allowed, on <= 4 nodes; kernel computation in 16 shards): maximal_is_separable_bounded_4,
    valid_mag_bounded_4 (the full unbounded statements are Spec.maximal_is_separable_stmt / valid_mag_full_stmt). *)
 From Coq Require Import List Arith Bool.
-From PG Require Import Base.ListSet Graph.MGraph Graph.MSep C06.Model C06.Enum C07.Model C07.Spec C07.Enum C07.Proofs C07.BoundedProp.
+From PG Require Import Base.ListSet Graph.MGraph Graph.MSep C06.Model C06.Enum C07.Model C07.Spec C07.Enum C07.Proofs C07.BoundedProp C07.Unbounded.
 Import ListNotations.
 
 Theorem valid_mag_local : valid_mag_local_stmt.
@@ -35,3 +37,18 @@ Theorem valid_mag_bounded_4 : forall n E Bi,
   (valid_mag_model g = true <-> U g = [] /\ no_bow_p g /\ acyclic_p g /\ ancestral_bi_p g /\ maximal_p g).
 Proof. exact valid_mag_bounded_4_prop. Qed.
 Print Assumptions valid_mag_bounded_4.
+
+(* ---- all sizes ---- *)
+Theorem maximal_is_separable : maximal_is_separable_stmt.
+Proof. exact C07.Unbounded.maximal_is_separable. Qed.
+Print Assumptions maximal_is_separable.
+
+(* the same without well-formedness / NoDup: only "no undirected edge" and "directed layer acyclic" are used *)
+Theorem maximal_is_separable_all : forall g,
+  U g = [] -> acyclicb g = true -> (is_maximal_model g = true <-> maximal_p g).
+Proof. exact C07.Unbounded.maximal_is_separable_all. Qed.
+Print Assumptions maximal_is_separable_all.
+
+Theorem valid_mag_full : valid_mag_full_stmt.
+Proof. exact C07.Unbounded.valid_mag_full_spec. Qed.
+Print Assumptions valid_mag_full.
